@@ -144,19 +144,109 @@ class Facts:
                             self.crates[f] = r
                     off += n
 
+        self._raw = {}
+        self.inlined = {}
+        self.hidden = set()
+        self.new_fns = set()
+        self._look_through_new_helpers()
+
+    # ---- helper look-through (rules/inline.py): functions that did not exist on the reference tree
+    def _look_through_new_helpers(self):
+        kp = os.path.join(os.path.dirname(os.path.abspath(__file__)), 'known_fns.json')
+        if not os.path.exists(kp) or os.environ.get('VERIF_NO_INLINE'):
+            return
+        known = set(json.load(open(kp)))
+        cand = set()
+        for d, r in self.fns.items():
+            if d in known or d.startswith('<') or not r.get('has_body') or r.get('kind') not in ('Fn', 'AssocFn') or d not in self._body_pos:
+                continue
+            if d.endswith('::main') or '::{' in d:
+                continue
+            cand.add(d)
+        if not cand:
+            return
+        # who references them, and how (call vs. address taken)
+        callers = {d: set() for d in cand}
+        taken = set()
+        for f in FACT_FILES:
+            with open(os.path.join(self.dir, f), 'rb') as fh:
+                for line in fh:
+                    if not line.startswith(b'{"rec":"body"'):
+                        continue
+                    for d in cand:
+                        q = json.dumps(d).encode()
+                        n_fn = line.count(b'"fn":' + q)
+                        n_res = line.count(b'"res":' + q)
+                        if not n_fn and not n_res:
+                            continue
+                        n_call = line.count(b'"t":"call","fn":' + q)
+                        i = line.index(b'"def":"') + 7
+                        j = line.index(b'"', i)
+                        owner = json.loads(b'"' + line[i:j] + b'"')
+                        if n_fn > n_call:
+                            taken.add(d)
+                        callers[d].add(owner)
+        self.new_fns = {d for d in cand if d not in taken and callers[d]}
+        if not self.new_fns:
+            return
+        import inline
+        for d in sorted(self.new_fns):
+            for owner in sorted(callers[d]):
+                if owner in self._body_pos:
+                    self.raw_body(owner)
+        # a helper is absorbed when no expanded caller still calls it
+        for d in sorted(self.new_fns):
+            residual = False
+            for owner in callers[d]:
+                root = owner.split('::{')[0]
+                if root in self.new_fns and root != d:
+                    continue   # the caller is itself a looked-through helper; its expanded copies live in its callers
+                if root == d:
+                    residual = True   # recursive helper
+                    continue
+                b = self._bodies.get(owner)
+                if b is None:
+                    residual = True
+                    continue
+                for blk in b['blocks']:
+                    t = blk.get('term') or {}
+                    if t.get('t') == 'call' and inline.callee_of(t) == d:
+                        residual = True
+            if not residual:
+                self.hidden.add(d)
+                if self.fns[d].get('async'):
+                    self.hidden.add(d + '::{closure#0}')
+        for d in self.hidden:
+            self.fns.pop(d, None)
+
     def body_defs(self):
+        if self.hidden:
+            return [d for d in self._body_pos if d not in self.hidden]
         return self._body_pos.keys()
 
     def has_body(self, d):
+        return d in self._body_pos and d not in self.hidden
+
+    def has_raw(self, d):
         return d in self._body_pos
 
-    def raw_body(self, d):
-        b = self._bodies.get(d)
+    def load_raw(self, d):
+        b = self._raw.get(d)
         if b is None:
             path, off, n = self._body_pos[d]
             with open(path, 'rb') as fh:
                 fh.seek(off)
                 b = json.loads(fh.read(n))
+            self._raw[d] = b
+        return b
+
+    def raw_body(self, d):
+        b = self._bodies.get(d)
+        if b is None:
+            b = self.load_raw(d)
+            if self.new_fns:
+                import inline
+                b = inline.expand(self, b, 0, (d.split('::{')[0],))
             self._bodies[d] = b
         return b
 
